@@ -180,6 +180,7 @@ impl Response {
                     .strip_suffix("\r\n")
                     .ok_or(ResponseError::Response)?;
                 let line_parts: Vec<&str> = line_without_crlf.splitn(2, ':').collect();
+                safe_assert(line_parts.len() == 2)?;
                 headers.add(HeaderType::from(line_parts[0]), line_parts[1].trim_start());
             }
         }
